@@ -6,14 +6,14 @@ SPEC = dict(
     allowed_axioms=[],
     level_text=("Unbounded Coq theorems (all tag->bytes maps with at most 4095 tables and < 4 GiB of padded data — the size "
                 "preconditions the real build() needs, the first shown sharp —, all add_raw / copy_missing_tables sequences) about an "
-                "executable model of FontBuilder::{add_raw,copy_missing_tables,ordered_tags,build}, compute_checksum, SearchRange and of "
+                "executable model of FontBuilder::{add_raw,add_table,copy_missing_tables,ordered_tags,build}, compute_checksum, SearchRange and of "
                 "the reader FontRef::{new,table_data}: the built file opens with sfnt version 0x00010000; its directory lists exactly the "
                 "supplied tags strictly ascending with the floor-log2 search fields; table_data returns exactly the supplied bytes "
                 "(head >= 12 bytes: equal outside bytes 8..12) and None for absent tags; offsets are 4-aligned, tables in bounds, zero "
                 "padded, laid out back to back in ordered_tags() order; each record checksum is the checksum of its table (head with the "
                 "adjustment zeroed); with a head of >= 12 bytes the whole-file checksum is 0xB1B0AFBA; any two insertion sequences "
-                "denoting the same map build identical bytes; copy_missing_tables never overrides a supplied table. The model is tied to "
-                "the code on every run: ~2500 generated op sequences / malformed files are run through the real write-fonts and "
+                "denoting the same map build identical bytes; copy_missing_tables never overrides a supplied table; an add_table whose compilation fails leaves the builder unchanged (no phantom tag, later copies not masked). The model is tied to "
+                "the code on every run: ~2600 generated op sequences (add_raw / add_table of compiling and non-compiling typed tables / copy_missing_tables, interleaved) / malformed files are run through the real write-fonts and "
                 "read-fonts and the model is evaluated on them by vm_compute, comparing the whole file byte for byte plus every reader "
                 "answer; an independent implementation-only oracle re-checks the property text on ~4100 real builds incl. 70 000-byte "
                 "tables and up to 4095 tables."),
@@ -21,13 +21,13 @@ SPEC = dict(
                 "not proved); the harness generator. SearchRange's f64 log2 is modelled by Z.log2 (tested for every table count the "
                 "sweep covers, not proved). Build inputs beyond 4 GiB are outside the theorems' precondition and untested."),
     technique="Coq proof (induction over sorted association lists / byte lists, binary-search loop invariant, checksum additivity mod 2^32) over a hand-written Gallina model of FontBuilder + FontRef, tied to write-fonts/read-fonts by whole-file byte-exact vm_compute correspondence",
-    modelled=["write-fonts/src/font_builder.rs: FontBuilder::{add_raw, copy_missing_tables, contains, ordered_tags, build}, round4, checksum_and_padding, TableDirectory::from_table_records, RECOMMENDED_TABLE_ORDER_TTF/CFF",
+    modelled=["write-fonts/src/font_builder.rs: FontBuilder::{add_raw, add_table (dump_table outcome as input), copy_missing_tables, contains, ordered_tags, build}, round4, checksum_and_padding, TableDirectory::from_table_records, RECOMMENDED_TABLE_ORDER_TTF/CFF",
               "write-fonts/src/util.rs: SearchRange::compute (integer semantics; u16 conversions as panics)",
               "write-fonts/generated/generated_font.rs: TableDirectory / TableRecord FontWrite::write_into",
               "read-fonts/src/tables.rs: compute_checksum",
               "read-fonts/generated/font.rs: TableDirectory::read, sfnt_version/num_tables/search_range/entry_selector/range_shift/table_records, TableRecord",
               "read-fonts/src/lib.rs: FontRef::new, with_table_directory, table_data (core::slice::binary_search_by, Offset32::non_null, FontData::slice)"],
-    not_covered=["FontBuilder::add_table (compiling typed tables), TTC collections (FileRef, FontRef::from_index, TTCHeader)",
+    not_covered=["the compilation inside FontBuilder::add_table (dump_table: validation + packing, C04/C05) — only its Ok(bytes)/Err outcome enters the model; TTC collections (FileRef, FontRef::from_index, TTCHeader)",
                  "SearchRange::compute's floating-point log2: modelled as Z.log2; tested by the table-count sweep only",
                  "u32 position overflow (>= 4 GiB of table data): the model predicts a panic, not exercised against the code",
                  "binary search on unsorted / duplicate directories: correspondence only (malformed stream), no theorem",
